@@ -63,6 +63,10 @@ MCCases == Chain2 \cup Both \cup Chain3
 SmallLin(ms) == SumLv(ms, Len(ms)) <= 3 \/ Len(ms) >= 3
 MCSmall == {c \in MCCases : c.mode = "chain3" \/ SmallLin(c.macros) \/ c.probe}
 
+\* thorough instance: injected failures in every undecorated case (one molecule, no tag) of the `+` and the block-less force field
+ProbeMore(c) == c.count = 1 /\ c.tag = 0 /\ (c.mode = "chain3" \/ c.ff \in {FFplus, FFonlyA})
+MCDeep == {[c EXCEPT !.probe = c.probe \/ ProbeMore(c)] : c \in MCCases}
+
 \* deviation instances: a handful of cases is enough to refute
 DevCases == {c \in MCCases : c.probe} \cup {c \in Chain3 : c.count = 1 /\ c.tag = 0}
 =============================================================================
